@@ -297,7 +297,7 @@ def replay(path):
 
 def configs(tier):
     out = ['registry', 'roundtrip']
-    hi = 2 if tier == 'quick' else 3
+    hi = 2 if tier == 'quick' else 4
     axes = list(itertools.product(range(1, hi + 1), repeat=4))
     if tier == 'quick':
         axes = [a for a in axes if sum(a) <= 6 or a == (2, 2, 2, 2)]
